@@ -22,7 +22,9 @@
 // the per-family `Rib.deferring` flags (probe insert), every distributed change (with best_changed /
 // any_changed for releases), and the `RestartingOutput`s of a SHADOW machine fed the same inputs (the
 // real glue consumes the outputs of the installed machine; `RestartingDeferral` is deterministic).
-// Transcribed: the start-up block of `serve` (it is inline in a function that binds sockets):
+// A second stream, `(wire ...)` cases (c11w.rs), starts the whole daemon from a configuration file and
+// observes at the socket only; there the start-up block below runs for real.
+// Transcribed in THIS stream: the start-up block of `serve` (it is inline in a function that binds sockets):
 // gr_peers from `Global.peers[..].config.graceful_restart`, the stale_routes_time mapping, `new`,
 // `start_deferral_families`, install.
 #![allow(dead_code, unused_imports)]
@@ -681,8 +683,25 @@ async fn run_c11(case: Case) -> String {
     Term::tag("trace", steps).to_string()
 }
 
+#[path = "/verif/harness/daemon/c11w.rs"]
+mod wire;
+
 fn run_case(line: &str) -> String {
-    let Some(case) = Term::parse(line).as_ref().and_then(case_of) else {
+    let term = Term::parse(line);
+    if term.as_ref().and_then(|t| t.head()) == Some("wire") {
+        let Some(case) = term.as_ref().and_then(wire::wcase_of) else {
+            return "(bad-case)".into();
+        };
+        // the whole daemon runs inside this runtime; dropping it ends every task the case started
+        let rt = tokio::runtime::Builder::new_current_thread()
+            .enable_all()
+            .build()
+            .unwrap();
+        let out = rt.block_on(wire::run_wire(case));
+        rt.shutdown_background();
+        return out;
+    }
+    let Some(case) = term.as_ref().and_then(case_of) else {
         return "(bad-case)".into();
     };
     let rt = tokio::runtime::Builder::new_current_thread()
